@@ -63,8 +63,15 @@ func mkUser(w *SrvWorld, uid []byte, cap int32, upRate, downRate, upCredit, down
 		UpCredit: usermanager.JustInt64(upCredit), DownCredit: usermanager.JustInt64(downCredit), ExpiryTime: usermanager.JustInt64(expiry)})
 }
 
-func runC17(c *Ctx, scAny any) {
-	sc := scAny.(*C17Scenario)
+func runC17(c *Ctx, scAny any) { runPanel(c, scAny.(*C17Scenario), false) }
+
+// runPanelUsage is the same workload judged by C16's exactly-once oracle:
+// every byte accounted on a valve of a live session is charged to the stored
+// credit exactly once, whatever the overlap of collection, commit and
+// last-session closure.
+func runPanelUsage(c *Ctx, scAny any) { runPanel(c, scAny.(*C17Scenario), true) }
+
+func runPanel(c *Ctx, sc *C17Scenario, usage bool) {
 	w := NewSrvWorld(c, SrvParams{WithDB: true})
 	defer w.Cleanup()
 	uids := make([][]byte, sc.NUsers)
@@ -82,8 +89,18 @@ func runC17(c *Ctx, scAny any) {
 	cfg := mux.SessionConfig{Obfuscator: obf, InactivityTimeout: time.Hour}
 	var live []c17Sess
 	running := 0
-	for _, cl := range sc.Clients {
+	carried := make([]int64, sc.NUsers)
+	var held []func()
+	for ci, cl := range sc.Clients {
 		cl := cl
+		if usage {
+			// a session of its own per client: nobody else closes it, so every byte
+			// below is accounted while the session is live
+			cl.Sessions = append([]int(nil), cl.Sessions...)
+			for j := range cl.Sessions {
+				cl.Sessions[j] += 10 * (ci + 1)
+			}
+		}
 		running++
 		simsync.Go("h:client", func() {
 			defer func() { running-- }()
@@ -106,8 +123,15 @@ func runC17(c *Ctx, scAny any) {
 				if cl.Traffic > 0 {
 					user.VerifValve().AddRx(int64(cl.Traffic))
 					user.VerifValve().AddTx(int64(cl.Traffic))
+					carried[cl.User] += int64(cl.Traffic)
 				}
 				if cl.Hold && i == len(cl.Sessions)-1 {
+					held = append(held, func() {
+						// what serveSession does once it finds its session closed under it
+						if sesh.IsClosed() {
+							user.CloseSession(uint32(sid), "")
+						}
+					})
 					return
 				}
 				user.CloseSession(uint32(sid), "client done")
@@ -167,11 +191,55 @@ func runC17(c *Ctx, scAny any) {
 		c.Fail("bookkeeping", "blocked-forever", "bookkeeping tasks still blocked at final quiescence\n%s", c.W.DumpTasks())
 		return
 	}
-	if end == simsync.EndDone {
+	if end != simsync.EndDone {
+		return
+	}
+	if !usage {
 		if v := ownership(); v != "" {
 			c.Fail("bookkeeping", v[:indexOf(v, '|')], "%s", v[indexOf(v, '|')+1:])
 		}
+		return
 	}
+	// traffic has stopped: one more complete upload, then the books must balance
+	c.W.OnIdle = nil
+	final := false
+	simsync.Go("h:final-upload", func() {
+		for _, f := range held {
+			f()
+		}
+		panel.VerifUpdateUsageQueue()
+		if err := panel.VerifCommitUpdate(); err != nil {
+			c.Fail("upload", "commit-error", "commitUpdate: %v", err)
+		}
+		final = true
+	})
+	// "a usage upload has completed": the final one and every round of the real
+	// once-a-minute uploader that started before it (each round is a goroutine
+	// started in userpanel.go next to the uploader loop itself)
+	settled := func() bool { return final && len(c.W.LiveTasks("internal/server/userpanel.go:")) <= 1 }
+	if end = c.Drive(settled); c.Failed() || !settled() {
+		return
+	}
+	for u := range uids {
+		info, err := w.Mgr.GetUserInfo(uids[u])
+		if err != nil || info.UpCredit == nil || info.DownCredit == nil {
+			c.Fail("usage", "user-lost", "user %d: GetUserInfo after the final upload: %v", u, err)
+			return
+		}
+		up, down := int64(1e12)-*info.UpCredit, int64(1e12)-*info.DownCredit
+		for d, charged := range []int64{up, down} {
+			dir := []string{"upload", "download"}[d]
+			switch {
+			case charged > carried[u]:
+				c.Fail("usage", "charged-twice", "user %d: %s credit charged %d for %d bytes carried (overlapping upload rounds / last-session closure)", u, dir, charged, carried[u])
+				return
+			case charged < carried[u]:
+				c.Fail("usage", "usage-lost", "user %d: %s credit charged %d for %d bytes carried after traffic stopped and a further upload completed", u, dir, charged, carried[u])
+				return
+			}
+		}
+	}
+	c.Probe("panel-usage-balanced")
 }
 
 func indexOf(s string, b byte) int {
@@ -194,4 +262,13 @@ func init() {
 			return p
 		}})
 	plans["C17"] = []string{"c17-panel"}
+	register(&Family{Name: "c16-overlap", Count: func(tier string) int { return map[string]int{"quick": 2000, "thorough": 100000}[tier] },
+		Gen: genC17, New: func() any { return &C17Scenario{} }, Run: runPanelUsage, VirtCap: 10 * time.Minute,
+		Policy: func(g *Gen) simsync.PolicyConfig {
+			p := SwarmPolicy(g)
+			if g.Bool(0.3) {
+				p.Stall = 0.003
+			}
+			return p
+		}})
 }
